@@ -1,12 +1,14 @@
 import JadeModel.Proofs.SystemGate
 import JadeModel.Proofs.SystemRows
 import JadeModel.Proofs.SystemStatusDefs
+import JadeModel.Proofs.SystemStatusFwdStep
+import JadeModel.Proofs.SystemStatusTornStep
 import JadeModel.Proofs.SystemStatusLocA
 import JadeModel.Proofs.SystemStatusLocB
 import JadeModel.Proofs.SystemStatusLocC
-import JadeModel.Proofs.SystemStatusFwdStep
-import JadeModel.Proofs.SystemStatusTornStep
-import JadeModel.Proofs.SystemStatusDoneStep
+import JadeModel.Proofs.SystemStatusLocD
+import JadeModel.Proofs.SystemStatusDoneStepA
+import JadeModel.Proofs.SystemStatusDoneStepB
 
 set_option linter.unusedSimpArgs false
 
@@ -31,10 +33,17 @@ namespace Jade.Sys
 
 theorem locInv_step {s s' : Sys} {op : Op} (hr : RoleInv s) (hi : LocInv s) (h : step s op = some s') :
     LocInv s' := by
-  obtain ⟨c_cnt, c_locDone, c_locNs⟩ := locInv_step_a hr hi h
-  obtain ⟨c_locBlk, c_pendNs⟩ := locInv_step_b hr hi h
-  obtain ⟨c_pendPc, c_blkClear⟩ := locInv_step_c hr hi h
+  obtain ⟨c_cnt, c_locDone⟩ := locInv_step_a hr hi h
+  obtain ⟨c_locNs, c_locBlk⟩ := locInv_step_b hr hi h
+  obtain ⟨c_pendNs, c_pendPc⟩ := locInv_step_c hr hi h
+  have c_blkClear := locInv_step_d hr hi h
   exact ⟨c_cnt, c_locDone, c_locNs, c_locBlk, c_pendNs, c_pendPc, c_blkClear⟩
+
+theorem doneRow_step {T : Prop} {s s' : Sys} {op : Op} (hr : RoleInv s) (hb : BlockInv s) (hi : DoneRow T s)
+    (hT : tornOk T op) (h : step s op = some s') : DoneRow T s' := by
+  obtain ⟨c_toCancelPc, c_diskRow⟩ := doneRow_step_a hr hb hi hT h
+  have c_locRow := doneRow_step_b hr hb hi hT h
+  exact ⟨c_toCancelPc, c_locRow, c_diskRow⟩
 
 /-- the all-ops invariants of this file together with the ones they rest on -/
 structure StatusAll (T : Prop) (s : Sys) : Prop where
